@@ -7,6 +7,7 @@ THEOREM_FILE = "Props/C20.v"
 EXTRA_THEOREM_FILES = ["History/C20_refuted.v",      # F-17: the pre-fix loop hands out 10.0.0.128/26 twice
                        "Props/C20_src.v"]            # source tie: translated source = model (DESIGN 5.1b)
 EXTRA_THEOREM_FILES.append("Props/C20_code.v")      # CODC: the C20 theorems stated about the regenerated definitions
+EXTRA_THEOREM_FILES.append("Props/C20_src_g.v")     # SRCG: SubnetSplitter.__init__
 RULE = ("random histories (length <= 14) on a SubnetSplitter over bases /(w-10)../(w-2) at the bottom, middle and top of "
         "both address spaces (with and without host bits in the base): extract_subnet(prefix, count) with every prefix "
         "from below the base prefix to the family width and counts {None, 1, 2, 3, 5, 6, 7, max, max+1, 0}, interleaved "
